@@ -1,84 +1,80 @@
 import Fabio.Generated.C08
 import Fabio.Model.C08
-/-! Obligations over the facts regenerated from `/repo` on every run (C08). -/
+/-!
+OBLIGATIONS over the facts regenerated from `/repo` on every run (`tools/factgen/c08.go`): statements the proof
+chain needs and that no correspondence stream can establish by running the code. Each names the breaking
+change it is there to exclude. Everything that merely pins the shape of the sequential header code — whose
+input/output behaviour `c08.unit`, `c08.serve`, `c08.proxy` and `c08.hopbyhop` compare with the model on every
+run — lives in `C08Pins.lean` (change detectors). Core only, `decide`.
+-/
 namespace Fabio.Props.C08Facts
 open Fabio Fabio.Model.C08
 
-def names (l : List Str) : List String := l.map String.ofList
+/-- The configuration fields of `Model.C08.Cfg`, by the name of the `config.Proxy` field each stands for. -/
+def modelCfgFields : List String :=
+  ["ClientIPHeader", "LocalIP", "RequestID", "STSHeader.MaxAge", "STSHeader.Preload", "STSHeader.Subdomains",
+   "TLSHeader", "TLSHeaderValue"]
 
-/-- `addHeaders` (with the unexported helpers it calls inlined: `scheme`, `localPort`, the Connection
-protection, …) reads and writes exactly the header names the model uses. -/
-theorem addHeaders_names_pinned :
-    Generated.C08.addHeadersNames =
-      names [connection, forwarded, upgrade, xForwardedFor, xForwardedHost, xForwardedPort, xForwardedPrefix,
-             xForwardedProto, xRealIp] := by
-  decide
+/-- **The model's configuration space is complete**: `addHeaders`, `addResponseHeaders` (helpers followed) and
+the request-id statement of `ServeHTTP` read exactly the `config.Proxy` fields that `Model.C08.Cfg` has.
+"For every header-related configuration" is quantified over `Cfg`; the generators vary these fields only.
+Excludes: a new switch read by the header code (say `cfg.TrustForwardedHeaders`) that changes what the upstream
+is told — every stream would keep running with the new field at its zero value and stay green. -/
+theorem model_cfg_fields_complete : Generated.C08.headerConfigFields = modelCfgFields := by decide
 
-/-- The order in which `addHeaders` mutates the header map (consecutive writes to one name collapsed) is the
-order of the model's steps: `stepClientIP`, `stepRealIp`, `stepWS`, `stepForward` (Proto, Port, Host, Prefix,
-Forwarded), `stepTLS` (set / delete), `stepConnection` (delete / assign) — in particular the Connection
-protection comes after every header it protects has been written (D12d). `scheme` writes nothing and
-`addResponseHeaders` only sets Strict-Transport-Security. -/
-theorem addHeaders_write_order :
-    Generated.C08.addHeadersWrites =
-      ["set:field:ClientIPHeader", "set:X-Real-Ip", "set:X-Forwarded-For", "set:X-Forwarded-Proto",
-       "set:X-Forwarded-Port", "set:X-Forwarded-Host", "set:X-Forwarded-Prefix", "set:Forwarded",
-       "set:field:TLSHeader", "del:field:TLSHeader", "del:Connection", "assign:Connection"] ∧
-    Generated.C08.schemeWrites = [] ∧
-    Generated.C08.responseWrites = ["set:Strict-Transport-Security"] := by decide
+/-- **Every one of those fields is bound to one documented option, of the right kind, defaulting to the
+default configuration** (`config/load.go`), and the default configuration sets none of them except `LocalIP`
+(so without configuration: no client-IP header, no TLS header, no request id, no HSTS).
+Excludes: `proxy.header.tls` bound to `TLSHeaderValue` and vice versa, an option dropped, a default that switches
+a header on. No C08 stream runs `config.Load` (the C08 harness hands `config.Proxy` values to the proxy). -/
+theorem header_options_bound :
+    Generated.C08.headerOptionBindings =
+      ["proxy.header.clientip -> ClientIPHeader : String : default",
+       "proxy.header.requestid -> RequestID : String : default",
+       "proxy.header.sts.maxage -> STSHeader.MaxAge : Int : default",
+       "proxy.header.sts.preload -> STSHeader.Preload : Bool : default",
+       "proxy.header.sts.subdomains -> STSHeader.Subdomains : Bool : default",
+       "proxy.header.tls -> TLSHeader : String : default",
+       "proxy.header.tls.value -> TLSHeaderValue : String : default",
+       "proxy.localip -> LocalIP : String : default"] ∧
+    Generated.C08.headerOptionBindings.length = modelCfgFields.length ∧
+    Generated.C08.headerDefaultsSet = ["LocalIP"] := by decide
 
-theorem scheme_names_pinned : Generated.C08.schemeNames = names [forwarded, upgrade, xForwardedProto] := by decide
+/-- **The HTTP(S) listeners serve a proxy that was built with the loaded configuration** (`main.go`): the one
+`proxy.HTTPProxy{…}` literal takes `Config` from the `Proxy` part of its configuration parameter, every handler
+given to `proxy.ListenAndServeHTTP*` comes from that constructor applied to the enclosing function's parameter,
+and that function is started with what `config.Load` returned.
+Excludes: a listener wired to a proxy with a partial or zero `config.Proxy` (all forwarding headers silently
+off in production while every test and stream, which build their own `HTTPProxy`, pass). No harness runs `main`. -/
+theorem listeners_serve_configured_proxy :
+    Generated.C08.httpProxyLiteralConfig = ["param0.Proxy"] ∧
+    Generated.C08.httpListenerHandlers.all (· == "built(param)") = true ∧
+    Generated.C08.httpListenerHandlers ≠ [] ∧
+    Generated.C08.httpListenersStartedWith = ["config.Load"] := by decide
 
-theorem response_names_pinned : Generated.C08.responseNames = names [stsName] := by decide
+/-- **Nothing in package `proxy` forwards an HTTP request except behind `addHeaders`**: the constructors of
+forwarding handlers (unexported functions returning `http.Handler`: the `httputil.ReverseProxy` wrapper and the
+websocket tunnel) are used by `HTTPProxy.ServeHTTP` only; there, every construction and the one forwarding
+call come after the `addHeaders` call, whose error branch ends in `return` (the exits of `Model.C08.serveHTTP`).
+Excludes: a second entry point (a health or debug handler, a retry path) that proxies with the client's
+headers untouched — the streams only drive `ServeHTTP`. -/
+theorem forwarders_only_behind_addHeaders :
+    Generated.C08.forwarderConstructorUsers = ["HTTPProxy.ServeHTTP"] ∧
+    Generated.C08.forwarderConstructors.length = 2 ∧
+    Generated.C08.forwardingStepsBeforeAddHeaders = 0 ∧
+    1 ≤ Generated.C08.forwarderConstructionsInServeHTTP ∧
+    Generated.C08.forwardCallsInServeHTTP = 1 ∧
+    Generated.C08.addHeadersCalls = 1 ∧
+    Generated.C08.addHeadersErrorBranchReturns = true := by decide
 
-/-- Every literal header name in the code is already canonical, so direct map indexing
-(`r.Header["X-Forwarded-For"]`) and `Get/Set` address the same entry, as the model assumes (`get1`/`put`
-on the literal). -/
-theorem header_literals_canonical :
-    (Generated.C08.addHeadersNames ++ Generated.C08.schemeNames ++ Generated.C08.responseNames ++
-      Generated.C08.managedHeaders).all
-      (fun n => canonicalKey n.toList == n.toList) = true := by decide
-
-/-- The configured client-IP header is exempted exactly for the two names with dedicated rules. -/
-theorem clientip_excluded_pinned : Generated.C08.clientIPExcluded = names [xForwardedFor, xRealIp] := by decide
-
-theorem forwarded_pieces_pinned :
-    Generated.C08.forwardedPieces = ["for=", "; proto=", "; by=", "; httpproto=", "; tlsver=", "; tlscipher="] := by decide
-
-theorem sts_pieces_pinned : Generated.C08.stsPieces = ["max-age=", "; includeSubdomains", "; preload"] := by decide
-
-theorem scheme_literals_pinned :
-    Generated.C08.schemeLiterals = ["proto=", "websocket", "wss", "ws", "https", "http"] := by decide
-
-theorem tlsver_pinned :
-    Generated.C08.tlsverKeys = ["tls.VersionSSL30", "tls.VersionTLS10", "tls.VersionTLS11", "tls.VersionTLS12"] ∧
-    Generated.C08.tlsverValues = names [tlsverName 0x0300, tlsverName 0x0301, tlsverName 0x0302, tlsverName 0x0303] := by
-  decide
-
-/-- D12b: the three places that decide "this is a websocket upgrade" (`ServeHTTP` choosing the tunnel,
-`addHeaders` adding X-Forwarded-For, `scheme` reporting ws/wss) use the same case-insensitive comparison —
-the model's `isWebsocket`. -/
-theorem websocket_compare_addHeaders : Generated.C08.wsCompareAddHeaders = ["fold:websocket"] := by decide
-theorem websocket_compare_scheme : Generated.C08.wsCompareScheme = ["fold:websocket"] := by decide
-theorem websocket_compare_serveHTTP : Generated.C08.wsCompareServeHTTP = ["fold:websocket"] := by decide
-
-/-- D12d: the Connection protection covers the fixed list and the three configured names of
-`Model.C08.managedKeys`, and reads a token the way `httputil.ReverseProxy` does (`tokenKey`); that it runs
-last is part of `addHeaders_write_order`. -/
-theorem protect_managed_headers_pinned :
-    Generated.C08.managedHeaders = names (managedKeys {}) ∧
-    Generated.C08.protectConfigFields = ["ClientIPHeader", "TLSHeader", "RequestID"] ∧
-    Generated.C08.protectTokenKey = ["http.CanonicalHeaderKey(textproto.TrimString(_))"] := by decide
-
-/-- D12: `ServeHTTP` (helpers inlined) calls `addHeaders(<request parameter>, <receiver>.Config,
-<target>.StripPath)` once, and no assignment to the request's `Host` (the route's `host=` option) precedes it, so the forwarding headers are derived from the Host the client sent —
-the order of `Model.C08.serve`. -/
-theorem addHeaders_before_host_override :
-    Generated.C08.addHeadersCalls = 1 ∧ Generated.C08.hostAssignmentsBeforeAddHeaders = 0 ∧
-    Generated.C08.addHeadersArgs = ["param1", "recv.Config", "local.StripPath"] := by decide
-
-/-- The request-id header is set before `addHeaders` runs (order of `Model.C08.serve`). -/
-theorem requestid_before_addHeaders :
-    Generated.C08.requestIDSets = 1 ∧ Generated.C08.requestIDSetsBeforeAddHeaders = 1 := by decide
+/-- **Requests do not influence each other through the header code**: the only package-level state
+`addHeaders` / `addResponseHeaders` touch are tables they read (`sharedTablesRead`), nothing in the package
+assigns to, deletes from, copies into or takes the address of one of them, and the header code starts no
+goroutine and defers nothing — it works on the request's own header map, sequentially, as the model does.
+Excludes: a cache or a table patched at run time (a data race between concurrent requests; the streams call
+the code from one goroutine at a time). -/
+theorem header_code_shares_only_constant_tables :
+    Generated.C08.sharedTableWrites = [] ∧
+    Generated.C08.headerCodeGoStmts = 0 ∧ Generated.C08.headerCodeDeferStmts = 0 := by decide
 
 end Fabio.Props.C08Facts
